@@ -142,6 +142,17 @@ def run_case(case, ctx):
         ok, v = ctx.call("cfg(xs)", dict(case, x=list(x)), cfg, x)
         if ok:
             judge("cfg(xs)", x, v)
+    trng = random.Random(case.get("perm") or 11)
+    # 1b. the same strings as other sequence types / with numpy-scalar tokens
+    for x in strings:
+        if x and trng.random() < 0.25:
+            for form, xv in lib.token_variants(x, trng)[1:]:
+                if form == "list":
+                    continue  # CFG.__call__ / CKY index charts by the prefix: sequences must be hashable there
+                ctx.shape[f"tokens:{form}"] += 1
+                ok, v = ctx.call("cfg(xs)", dict(case, x=list(x), form=form), cfg, xv)
+                if ok:
+                    judge("cfg(xs)", x, v, {"token_form": form})
     # 2. Earley
     ok, p = ctx.call("Earley(cfg)(xs)", case, Earley, cfg)
     if ok:
@@ -149,6 +160,12 @@ def run_case(case, ctx):
             ok, v = ctx.call("Earley(cfg)(xs)", dict(case, x=list(x)), p, x)
             if ok:
                 judge("Earley(cfg)(xs)", x, v)
+            if x and trng.random() < 0.2:
+                for form, xv in lib.token_variants(x, trng)[1:]:
+                    ctx.shape[f"tokens:{form}"] += 1
+                    ok, v = ctx.call("Earley(cfg)(xs)", dict(case, x=list(x), form=form), p, xv)
+                    if ok:
+                        judge("Earley(cfg)(xs)", x, v, {"token_form": form})
     # 3. rescaled Earley (real weights only)
     if R == "Float":
         api = "earley_rescaled.Earley(cfg)(xs)"
